@@ -59,6 +59,7 @@ func RuleS1(sub ...string) func(*Ctx) {
 			"S1f": "a lexeme never begins at or before the end of the previous one",
 			"S1g": "bytes consumed outside lexemes and comments are blanks, line ends or delimiters",
 			"S1i": "end of input is not accepted while a lexeme that spans input is open",
+			"W3":  "at the start of a line outside lexemes and comments, a blank or a further line end is never an error",
 		}
 		for _, id := range sub {
 			m, r, sc, ok := scannerBase(c, id, what[id]+" (pushdown reachability over the extracted scanner automaton)", len0(id))
